@@ -685,6 +685,12 @@ class BinaryFunction(Function):
 class Log10(UnaryFunction):
     _func_name = "log10"
 
+    def __call__(self, variables, backend=math, **kwargs):
+        if hasattr(backend, "log10"):
+            return super().__call__(variables, backend=backend, **kwargs)
+        (arg,) = self.all_args(variables, backend=backend, **kwargs)
+        return backend.log(arg) / backend.log(10)  # e.g. sympy has no log10
+
 
 class Exp(UnaryFunction):
     _func_name = "exp"
